@@ -213,7 +213,13 @@ NEG_REDUCTION_LINES = ["nt_mod %s %s %s" % (v, a, m) for v in ("barrt", "pmers",
                        for a, m in (("-5", "5"), ("-a", "5"), ("-3", "5"), ("-7", "7"), ("-e", "7"), ("-1", "7"), ("-1", "ffffffffffffffffff"),
                                     ("-ffffffffffffffffff", "ffffffffffffffffff"), ("-1fffffffffffffffffe", "ffffffffffffffffff"), ("-100", "100"), ("-ff", "100"))]
 
-CORPUS = FINDING_LINES + NEG_REDUCTION_LINES + ["nt_rec win 4 1", "nt_rec win 2 0", "nt_inv -1 5", "nt_smb jac 4 5", "nt_smb jac 2 f", "nt_gcd_ext basic -c 12", "nt_gcd_ext lehme -c 12", "nt_gcd_ext binar c -12", "nt_gcd basic 0 0",
+# every strong pseudoprime of the table and a Carmichael sample, to every primality test that decides by itself (a test that shortens its base
+# list for small candidates accepts the psi values of the dropped bases: seeded change C09-rabin-nine-bases-64bit)
+_SPSP_FAC = {3317044064679887385961981: 1287836182261, 318665857834031151167461: 399165290221}
+PSEUDOPRIME_LINES = ["nt_prime %s %x%s" % (v, n_, (" C %x" % _SPSP_FAC[n_]) if n_ in _SPSP_FAC else "")
+                     for v in ("rabin", "prime", "solov") for n_ in SPSP + CARMICHAEL[:12]]
+
+CORPUS = FINDING_LINES + NEG_REDUCTION_LINES + PSEUDOPRIME_LINES + ["nt_rec win 4 1", "nt_rec win 2 0", "nt_inv -1 5", "nt_smb jac 4 5", "nt_smb jac 2 f", "nt_gcd_ext basic -c 12", "nt_gcd_ext lehme -c 12", "nt_gcd_ext binar c -12", "nt_gcd basic 0 0",
           "nt_gcd_ext basic 0 5", "nt_inv 3 7", "nt_mxp basic 2 -1 7", "nt_mxp slide 0 0 7", "nt_rec naf 2 0", "nt_rec win 4 1", "nt_srt 0"]
 
 
